@@ -5,18 +5,7 @@
 C06_VTABLE(QXmppSaslClient) C06_VTABLE(QXmppSaslClientScram)
 using namespace QXmpp::Private;
 
-// what the manager sends: serialised into the DOM/writer tree model instead of text (definition of the out-of-line helper of
-// QXmppUtils.cpp, which needs a QXmlStreamWriter over a QByteArray device)
-static int g_sent = 0;
-static QDomElement *g_lastSent = nullptr;
-extern "C" void vp_serialize_xml(QByteArray *ret, const void *packet, void (*toXml)(const void *, QXmlStreamWriter *))
-{
-    VpWriter w; toXml(packet, w.writer());
-    static QDomElement last; last = w.root(); g_lastSent = &last; g_sent++;
-    new (ret) QByteArray();
-}
-// keeps vp_serialize_xml in the translated program (it is called from the C model of serializeXml); never executed
-static void keepHelper() { unsigned z = vp_u32(); vp_assume(z != 0xC06C06); if (z == 0xC06C06) { QByteArray b; vp_serialize_xml(&b, nullptr, nullptr); } }
+extern "C" unsigned vp_serialize_count();   // number of stanzas serialised for sending (contents are cut, see c06_models.c)
 struct Sock : SendDataInterface { bool sendData(const QByteArray &) override { return true; } };
 
 #define S(x) QStringLiteral(x)
@@ -25,24 +14,25 @@ static void setText(QDomElement &e, const QByteArray &data) { QString t = QStrin
 
 // SCRAM client in an arbitrary in-progress state. Representation invariant of (manager, client) while the task is pending:
 // step in {1,2,3}; step 3 is only reached through a server-final whose signature matched (otherwise the manager had failed the task).
+// the repaired client (proposed fix) records the verification in a flag; the unchanged one has no such member
+template<class C> static void setVerified(C *c, bool v) { if constexpr (requires { c->m_serverVerified; }) c->m_serverVerified = v; }
 static QXmppSaslClientScram *scramInState(int step, const QByteArray &sig)
 {
     QXmppSaslDigestMd5::setNonce(QByteArray("N"));
     auto *c = new QXmppSaslClientScram(SaslScramMechanism { SaslScramMechanism::Sha256 }, nullptr);
-    c->m_step = step; c->m_serverSignature = sig; c->m_gs2Header = QByteArray("n,,"); c->m_clientFirstMessageBare = QByteArray("n=u,r=N");
+    c->m_step = step; setVerified(c, step == 3); c->m_serverSignature = sig; c->m_gs2Header = QByteArray("n,,"); c->m_clientFirstMessageBare = QByteArray("n=u,r=N");
     return c;
 }
-// the data carried by the incoming element: nothing, garbage, or a server-final with an arbitrary signature
+// the data carried by the incoming element (per-instance choice): nothing, or a server-final with an arbitrary signature V
+// (at step 1 the latter is a malformed server-first)
 static QByteArray incomingData(unsigned kind, const QByteArray &V)
 {
     if (kind == 0) return QByteArray();
-    if (kind == 1) return QByteArray("e=other-error");
-    QByteArray d("v="); d.append(V.toBase64()); hintPiecesOne(d); return d;
+    QByteArray d("v="); d.append(V.toBase64()); hintAnyOnePiece(d.size()); return d;
 }
 
-extern "C" void h_sasl_manager()
+static void saslManager(bool excludeKnown)
 {
-    keepHelper();
     Sock sock; SaslManager mgr(&sock);
     mgr.m_promise = QXmppPromise<SaslManager::AuthResult>();
     auto task = mgr.m_promise->task();
@@ -51,19 +41,20 @@ extern "C" void h_sasl_manager()
     auto *c = scramInState(int(step), sig);
     mgr.m_saslClient.reset(c);
     // incoming element
-    unsigned tag = vp_u32(), dk = vp_u32(); vp_assume(tag < 4 && dk < 3);
+    unsigned tag = vp_cfg(1), dk = vp_cfg(0); vp_b64_expect_valid(true);
     QByteArray data = incomingData(dk, V);
     QDomElement el = elem(tag == 0 ? S("success") : tag == 1 ? S("challenge") : tag == 2 ? S("failure") : S("other"), S("urn:ietf:params:xml:ns:xmpp-sasl"));
     if (!data.isEmpty()) setText(el, data);
     auto r = mgr.handleElement(el);
-    bool serverProved = step == 3 || (step == 2 && dk == 2 && V == sig);
+    bool serverProved = step == 3 || (step == 2 && dk == 1 && V == sig);
+    if (excludeKnown && tag == 0) vp_assume(serverProved);   // known finding: <success/> before the server signature was verified
     bool finished = task.isFinished();
     bool success = finished && std::holds_alternative<QXmpp::Success>(task.result());
     vp_assert(!success || serverProved, "C06 SASL: Success is reported only if the SCRAM server signature was verified");
     vp_assert(finished == (r == Finished), "C06 SASL: the task completes exactly when handleElement reports Finished");
     vp_assert(finished == !mgr.m_promise.has_value(), "C06 SASL: a finished exchange leaves no pending promise");
     if (tag == 1 && !finished) {
-        vp_assert(r == Accepted && g_sent == 1, "C06 SASL: an answered challenge sends exactly one response");
+        vp_assert(r == Accepted && vp_serialize_count() == 1, "C06 SASL: an answered challenge sends exactly one response");
         vp_assert(c->m_step == 3 && serverProved, "C06 SASL: the exchange continues past a server-final only if the signature matched (invariant)");
     }
     if (tag == 1 && step == 2 && !serverProved) vp_assert(finished && !success, "C06 SASL: a wrong server signature fails the login");
@@ -72,9 +63,8 @@ extern "C" void h_sasl_manager()
     if (tag == 0 && serverProved) vp_assert(success, "C06 SASL: <success/> after a verified server signature completes the login");
 }
 
-extern "C" void h_sasl2_manager()
+static void sasl2Manager(bool excludeKnown)
 {
-    keepHelper();
     Sock sock; Sasl2Manager mgr(&sock);
     mgr.m_state.emplace();
     auto task = mgr.m_state->p.task();
@@ -82,7 +72,7 @@ extern "C" void h_sasl2_manager()
     QByteArray sig = vpBytesExact(vp_diglen()), V = vpBytesExact(vp_diglen());
     auto *c = scramInState(int(step), sig);
     mgr.m_state->sasl.reset(c);
-    unsigned tag = vp_u32(), dk = vp_u32(); vp_assume(tag < 4 && dk < 3);
+    unsigned tag = vp_cfg(1), dk = vp_cfg(0); vp_b64_expect_valid(true);
     QByteArray data = incomingData(dk, V);
     QString ns2 = S("urn:xmpp:sasl:2");
     QDomElement el = elem(tag == 0 ? S("success") : tag == 1 ? S("challenge") : tag == 2 ? S("failure") : S("other"), ns2);
@@ -93,14 +83,15 @@ extern "C" void h_sasl2_manager()
         QDomElement cond = elem(S("not-authorized"), S("urn:ietf:params:xml:ns:xmpp-sasl")); vp_dom_append(&el, &cond);
     } else if (!data.isEmpty()) setText(el, data);
     auto r = mgr.handleElement(el);
-    bool serverProved = step == 3 || (step == 2 && dk == 2 && V == sig);
+    bool serverProved = step == 3 || (step == 2 && dk == 1 && V == sig);
+    if (excludeKnown && tag == 0) vp_assume(serverProved);   // known finding: <success/> before the server signature was verified
     bool finished = task.isFinished();
     bool success = finished && std::holds_alternative<Sasl2::Success>(task.result());
     vp_assert(!success || serverProved, "C06 SASL2: Success is reported only if the SCRAM server signature was verified");
     vp_assert(finished == (r == Finished), "C06 SASL2: the task completes exactly when handleElement reports Finished");
     vp_assert(finished == !mgr.m_state.has_value(), "C06 SASL2: a finished exchange leaves no pending state");
     if (tag == 1 && !finished) {
-        vp_assert(r == Accepted && g_sent == 1, "C06 SASL2: an answered challenge sends exactly one response");
+        vp_assert(r == Accepted && vp_serialize_count() == 1, "C06 SASL2: an answered challenge sends exactly one response");
         vp_assert(c->m_step == 3 && serverProved, "C06 SASL2: the exchange continues past a server-final only if the signature matched (invariant)");
     }
     if (tag == 1 && step == 2 && !serverProved) vp_assert(finished && !success, "C06 SASL2: a wrong server signature fails the login");
@@ -108,3 +99,13 @@ extern "C" void h_sasl2_manager()
     if (tag == 3) vp_assert(r == Rejected && !finished, "C06 SASL2: unrelated elements are not handled");
     if (tag == 0 && serverProved) vp_assert(success, "C06 SASL2: <success/> after (or carrying) a verified server signature completes the login");
 }
+
+#ifdef KF_success_before_server_proof
+#define C06_EXCL true
+#else
+#define C06_EXCL false
+#endif
+extern "C" void h_sasl_manager() { saslManager(C06_EXCL); }
+extern "C" void h_sasl2_manager() { sasl2Manager(C06_EXCL); }
+extern "C" void h_sasl_manager_kf() { saslManager(false); }    // demonstrates the known finding
+extern "C" void h_sasl2_manager_kf() { sasl2Manager(false); }
